@@ -160,6 +160,11 @@ func (s *AScenario) configYAML(variant string) string {
 		c := *s
 		c.Out2 = !s.Out2
 		return c.configYAML("")
+	case "noorchestration":
+		// a whole mandatory section is missing: well-formed YAML that must fail verification, not crash the reloader
+		full := s.configYAML("")
+		i, j := strings.Index(full, "orchestration:\n"), strings.Index(full, "metricKeys:")
+		return full[:i] + full[j:]
 	case "badenvfield":
 		// an output refers to a field the schema does not have: must be rejected before anything is torn down
 		return strings.Replace(s.configYAML(""), "environmentFields: [host, app]", "environmentFields: [host, nosuchfield]", 1)
@@ -790,7 +795,7 @@ func (w *worldA) tweak(r *simrt.Rand, s *AScenario, end int) {
 		s.Reloader = true
 		s.Events = nil
 		for i, n := 0, 1+r.Intn(3); i < n; i++ {
-			s.Events = append(s.Events, AEvent{AtMs: r.Intn(end + 3000), Kind: []string{"sighup_valid", "sighup_valid", "sighup_invalid", "sighup_incompatible", "sighup_valid", "sighup_addoutput", "sighup_badenvfield"}[r.Intn(7)]})
+			s.Events = append(s.Events, AEvent{AtMs: r.Intn(end + 3000), Kind: []string{"sighup_valid", "sighup_valid", "sighup_invalid", "sighup_incompatible", "sighup_valid", "sighup_addoutput", "sighup_badenvfield", "sighup_noorchestration"}[r.Intn(8)]})
 		}
 		if r.Bool(25) {
 			restarts(1)
@@ -1258,9 +1263,9 @@ func (r *aRun) drive() {
 			if simsignal.Deliver(syscall.SIGUSR1) > 0 {
 				r.out.fault("sigusr1_delivered", 1)
 			}
-		case "sighup_valid", "sighup_invalid", "sighup_incompatible", "sighup_addoutput", "sighup_badenvfield":
+		case "sighup_valid", "sighup_invalid", "sighup_incompatible", "sighup_addoutput", "sighup_badenvfield", "sighup_noorchestration":
 			variant := map[string]string{"sighup_valid": "valid2", "sighup_invalid": "invalid", "sighup_incompatible": "incompatible",
-				"sighup_addoutput": "addoutput", "sighup_badenvfield": "badenvfield"}[ev.Kind]
+				"sighup_addoutput": "addoutput", "sighup_badenvfield": "badenvfield", "sighup_noorchestration": "noorchestration"}[ev.Kind]
 			r.writeConfig(variant)
 			if simsignal.Deliver(syscall.SIGHUP) > 0 {
 				r.out.fault(ev.Kind, 1)
